@@ -177,3 +177,13 @@ Proof.
   intros Ht. unfold StoredLogPy_gen.filter_out_gone_rows_py. rewrite Ht. apply List_filter_stdpp.
   intros r. rewrite aget_list_to_map. apply py_ne_false_spec.
 Qed.
+
+(* ---------------------------------------------------------------------------------------------------------- *)
+(* 6. Engine.get_formula_value (C29): the checkpoint and the set of records marked for auto-removal are both saved
+   UNCONDITIONALLY before the evaluation of the cell and both put back UNCONDITIONALLY in the finally (b24421a): the
+   model's read-only evaluation leaves neither doc actions nor auto-remove marks behind. *)
+Definition model_get_formula_value : list (eguard * fcall) :=
+  [(GAlways, FCheckpoint); (GAlways, FSaveAutoRemoves); (GAlways, FEvaluate); (GAlways, FUndoToCheckpoint);
+   (GAlways, FRestoreAutoRemoves)].
+Lemma bridge_get_formula_value : gen_get_formula_value = model_get_formula_value.
+Proof. reflexivity. Qed.
